@@ -228,6 +228,11 @@ public:
     static Interval nth_root(const Interval& a, const Interval& b)
     {
         auto bPt = int(b.lower());
+
+        // Unlike the other rounded functions, boost::numeric::nth_root does
+        // not save and restore the rounding mode itself, so we do it here;
+        // otherwise, the caller's floating-point environment is changed.
+        I::traits_type::rounding rnd;
         auto i = boost::numeric::nth_root(a.i, bPt);
 
         // We can only take multiples-of-two nth roots on negative values
